@@ -329,16 +329,33 @@ func ptRun(e *env, cases []ptCase, chunk int, timeout time.Duration) []ptResult 
 	if dir == "" {
 		dir = os.TempDir()
 	}
-	start := 0
+	start, hangs := 0, 0
 	for start < len(cases) {
 		end := start + chunk
 		if end > len(cases) {
 			end = len(cases)
 		}
-		start = ptRunChunk(e, cases, res, start, end, dir, timeout)
+		next := ptRunChunk(e, cases, res, start, end, dir, timeout)
+		if next < end && res[next-1].Class == "hang" {
+			hangs++
+		}
+		start = next
+		if hangs >= ptMaxHangs {
+			// every further hang would cost a timeout: the parser (or the scanner) has a
+			// termination defect, which is C05's to report; stop here
+			for i := start; i < len(cases); i++ {
+				res[i] = ptResult{Class: "skipped"}
+			}
+			e.res.Note("%d parses did not return; the remaining %d inputs were not run", hangs, len(cases)-start)
+			break
+		}
 	}
 	return res
 }
+
+const ptMaxHangs = 25
+
+var ptConfirmedHangs int
 
 // ptRunChunk runs cases[start:end] in one worker; returns the index to continue from
 // (end, or the case after a hang/crash).
@@ -411,7 +428,19 @@ func ptRunChunk(e *env, cases []ptCase, res []ptResult, start, end int, dir stri
 			if cur < 0 {
 				cur = 0
 			}
-			res[start+cur] = ptResult{Class: "hang"}
+			// re-confirm alone, with a longer timeout, before calling it a hang
+			if timeout < 8*time.Second && ptConfirmedHangs < 5 {
+				one := make([]ptResult, start+cur+1)
+				ptRunChunk(e, cases, one, start+cur, start+cur+1, dir, 10*time.Second)
+				res[start+cur] = one[start+cur]
+				if res[start+cur].Class != "hang" {
+					e.res.Histogram["slow-in-sequence,returned-when-run-alone"]++
+				} else {
+					ptConfirmedHangs++
+				}
+			} else {
+				res[start+cur] = ptResult{Class: "hang"}
+			}
 			return start + cur + 1
 		}
 	}
